@@ -205,8 +205,8 @@ u64 decode(const std::byte* p, std::size_t n) noexcept {
 }
 
 // ----------------------------------------------------------------------- history
-enum : int { K_INSERT = vl::INSERT, K_REMOVE = vl::REMOVE, K_GET = vl::GET, K_EMPTY = 3, K_SCAN = 4 };
-const char* const kNames[] = {"insert", "remove", "get", "empty", "scan"};
+enum : int { K_INSERT = vl::INSERT, K_REMOVE = vl::REMOVE, K_GET = vl::GET, K_EMPTY = 3, K_SCAN = 4, K_CLEAR = 5 };
+const char* const kNames[] = {"insert", "remove", "get", "empty", "scan", "clear"};
 
 struct planned { int kind; int key; };
 
@@ -372,6 +372,13 @@ void run_worker(round_ctx& rc, worker& w) {
         lib_leave(); r.ret = stamp();
         check_held(w, "empty", 0, true);
         break;
+      case K_CLEAR:
+        r.call = stamp(); lib_enter();
+        rc.db.clear();
+        lib_leave(); r.ret = stamp();
+        r.ok = true;
+        check_held(w, "clear", 0, true);
+        break;
       case K_SCAN: {
         r.seen.reserve(rc.keys.size() + 4);
         auto fn = [&r, lim = rc.keys.size() + 4](const auto& v) {
@@ -456,7 +463,7 @@ void make_plans(round_ctx& rc, vh::rng& r) {
     for (u64 i = 0; i < n; ++i) {
       const u64 x = r.below(100);
       planned p{};
-      p.kind = x < 28 ? K_INSERT : x < 52 ? K_REMOVE : x < 88 ? K_GET : x < 96 ? K_EMPTY : K_SCAN;
+      p.kind = x < 28 ? K_INSERT : x < 52 ? K_REMOVE : x < 85 ? K_GET : x < 93 ? K_EMPTY : x < 97 ? K_SCAN : K_CLEAR;
       p.key = p.kind >= K_EMPTY ? -1 : r.chance(hot_p) ? hot : static_cast<int>(r.below(rc.nactive));
       w->plan.push_back(p);
     }
@@ -501,13 +508,17 @@ inline bool intersects(const rec& a, const rec& b) noexcept { return a.call < b.
 bool definitely(const round_ctx& rc, const std::vector<const rec*>& all, std::size_t ki, const rec& e, bool want) {
   const int est = want ? K_INSERT : K_REMOVE, opp = want ? K_REMOVE : K_INSERT;
   const auto clean_since = [&](u64 since_call) {
-    for (const rec* o : all)
+    for (const rec* o : all) {
       if (o->kind == opp && o->key == static_cast<int>(ki) && o->call < e.ret && o->ret > since_call) return false;
+      if (want && o->kind == K_CLEAR && o->call < e.ret && o->ret > since_call) return false;  // a clear opposes presence of every key
+    }
     return true;
   };
   if ((rc.initial[ki] != 0) == want && clean_since(0)) return true;
-  for (const rec* o : all)
+  for (const rec* o : all) {
     if (o->kind == est && o->key == static_cast<int>(ki) && o->ok && o->ret < e.call && clean_since(o->call)) return true;
+    if (!want && o->kind == K_CLEAR && o->ret < e.call && clean_since(o->call)) return true;  // a clear establishes absence of every key
+  }
   return false;
 }
 
@@ -552,6 +563,8 @@ void evaluate(round_ctx& rc, u64 c) {
         if (o->key != static_cast<int>(ki)) continue;
         x.kind = o->kind; x.ok = o->ok; x.value = o->value;
         x.tag = o->thread == T ? 2 : 0;
+      } else if (o->kind == K_CLEAR) {  // whole-index operation: on this key an unconditional removal
+        x.kind = vl::CLEAR; x.ok = true; x.tag = 3;
       } else if (o->kind == K_SCAN) {  // atomic snapshot: its projection on this key is a get
         x.kind = vl::GET; x.tag = 1;
         for (const auto& kv : o->seen) if (kv.first == rc.keys[ki]) { x.ok = true; x.value = kv.second; break; }
@@ -628,7 +641,7 @@ void evaluate(round_ctx& rc, u64 c) {
   rep().count("rounds");
   rep().count("ops", nworker_ops);
   rep().count("snapshot_ops", all.size() - nworker_ops);
-  u64 cnt[9] = {};
+  u64 cnt[10] = {};
   for (std::size_t i = 0; i < nworker_ops; ++i) {
     const rec& o = *all[i];
     switch (o.kind) {
@@ -636,11 +649,12 @@ void evaluate(round_ctx& rc, u64 c) {
       case K_REMOVE: ++cnt[o.ok ? 2 : 3]; break;
       case K_GET: ++cnt[o.ok ? 4 : 5]; break;
       case K_EMPTY: ++cnt[6]; if (o.ok) ++cnt[7]; break;
+      case K_CLEAR: ++cnt[9]; break;
       default: ++cnt[8];
     }
   }
-  static const char* const cn[9] = {"inserts_ok", "inserts_dup", "removes_ok", "removes_absent", "gets_hit", "gets_miss", "empty_calls", "empty_true", "scans"};
-  for (int i = 0; i < 9; ++i) rep().count(cn[i], cnt[i]);
+  static const char* const cn[10] = {"inserts_ok", "inserts_dup", "removes_ok", "removes_absent", "gets_hit", "gets_miss", "empty_calls", "empty_true", "scans", "clears"};
+  for (int i = 0; i < 10; ++i) rep().count(cn[i], cnt[i]);
   rep().count("overlapping_pairs", overlap_pairs);
   rep().count("blocked_behind_hold", blocked);
   rep().count("called_inside_hold", called_inside);
